@@ -668,6 +668,7 @@ def fold_registrations(hm: "HooksModule"):
     g["Ellipsis"] = Ellipsis
     g["functools"] = microeval.functools_module()
     it = Interp(name=hm.rel, extra_globals=g)
+    it.globals["itertools"] = microeval._itertools_module(it)
     hm.fold_interp = it
     hm.fold_from_ty = from_ty
     # module level of _hooks.py: functions and simple assignments (type aliases, constants)
